@@ -164,6 +164,10 @@ def build(F):
         msgs.append(dict(name='ListOldResponse', fields=[dict(name='names', repeated=True), dict(name='next_page_token')]))
         methods.append(dict(name='ListOld', **{'in': 'ListOldRequest', 'out': 'ListOldResponse'},
                             http=http('get', '/v1/{parent=shelves/*}/old')))
+    if 'm_raw_operation' in F:
+        # an Operation-returning method WITHOUT operation_info: returns the raw google.longrunning.Operation
+        methods.append(dict(name='StartRaw', **{'in': 'GetBookRequest', 'out': 'google.longrunning.Operation'},
+                            http=http('post', '/v1/{name=shelves/*/books/*}:startRaw', '*')))
     if 'm_deprecated' in F:
         methods[0]['deprecated'] = True
     if 'm_kw' in F:
